@@ -27,6 +27,7 @@ def run_phases(ctx, pid, what):
     n, ln = (30, 60) if ctx.quick() else (400, 150)
     procs = [1, 4, 16] if ctx.quick() else [1, 2, 4, 8, 16]
     traces = []
+    failing = None
     for gi, gmp in enumerate(procs):
         d = ctx.subdir("phases-p%d" % gmp)
         tr = os.path.join(d, "trace.ndjson")
@@ -52,13 +53,15 @@ def run_phases(ctx, pid, what):
             raise common.Inconclusive("no verdict from trace validation:\n" + "\n".join(r.out.splitlines()[-30:]))
         for k, v in zip(("C03", "C05", "C16", "HARNESS"), m.groups()):
             tot[k] += int(v)
+            if int(v) and k == pid and failing is None:
+                failing = tr
         for mm in re.finditer(r'"NONCONFORMING",\s*"(C\d\d)[^"]*?([A-Za-z][^"]*)"', r.out):
             examples.setdefault(mm.group(1), mm.group(2))
         traces.append((tr, gmp))
     if tot["HARNESS"]:
         raise common.Inconclusive("the recorded trace is malformed (exit without enter): harness problem")
     if tot[pid]:
-        rp = ctx.save_replay(traces[-1][0], "phases-trace.ndjson")
+        rp = ctx.save_replay(failing or traces[-1][0], "phases-trace.ndjson")
         ctx.violation("phases/%s/%s" % (pid, examples.get(pid, "predicate")), "%d recorded handler events violate %s's predicates (%s)" % (tot[pid], pid, examples.get(pid, "")), rp)
     ctx.traces_validated = sessions
     ctx.samples = [{"ev": "enter", "kind": "fg", "h": "f1", "k": 7, "wk": True, "wnext": False}, {"sessions": sessions, "events": events}]
